@@ -48,7 +48,7 @@ var scriptSlots = map[string][]scriptSlot{
 	},
 }
 
-var scriptClasses = []string{"normal", "nonl", "crlf", "high", "shared", "empty", "nul", "braces"}
+var scriptClasses = []string{"normal", "nonl", "crlf", "high", "shared", "empty", "percent", "nul", "braces"}
 
 // scriptSizes: script lengths around the tar block size and buffer sizes (thorough tier).
 var scriptSizes = []int{1, 2, 511, 512, 513, 1023, 1024, 1025, 4095, 4096, 4097, 32768, 65535, 65536, 65537, 1 << 20}
@@ -71,6 +71,9 @@ func scriptBytes(class, key string) []byte {
 		return []byte("#!/bin/sh\necho one script shared by every slot\n")
 	case "empty":
 		return []byte{}
+	case "percent":
+		// text that a formatting function would interpret: verbs, %%, a date format, backslash escapes, {{ template }} actions
+		return []byte("#!/bin/sh\n# " + key + "\nprintf '%s %d %% %v\\n' a 1\ndate +%Y-%m-%d\necho '{{ .Name }} {{- end }}' \\t \\n $$ ${HOME} $(id -u)\n")
 	case "nul":
 		return []byte("#!/bin/sh\necho " + key + "\x00after-nul\n")
 	case "braces":
@@ -162,7 +165,7 @@ func init() {
 	engine.Register(&engine.Prop{
 		ID:    "C09",
 		Level: "model_checking",
-		Rule: "every subset of the configurable script slots of every format (deb 2^7, rpm 2^7, apk 2^6, archlinux 2^6, ipk 2^4) x script byte classes (normal, no trailing newline, CRLF, bytes 0x80-0xff, one file shared by all slots; thorough adds empty, NUL-containing and brace/blank-line/here-document text), each slot carrying distinct bytes naming itself; " +
+		Rule: "every subset of the configurable script slots of every format (deb 2^7, rpm 2^7, apk 2^6, archlinux 2^6, ipk 2^4) x script byte classes (normal, no trailing newline, CRLF, bytes 0x80-0xff, one file shared by all slots, empty, text with % verbs / backslashes / {{ }} / $; thorough adds NUL-containing and brace/blank-line/here-document text), each slot carrying distinct bytes naming itself; " +
 			"history: the same configuration built first with other bytes in the same script files (quick: one priming class; thorough: every ordered pair of 6 classes x every non-empty subset); " +
 			"placement: slots configured in the base settings, only in overrides.<format>, in overrides.<format> over base decoys (unset slots must keep the base script), or next to decoys in every other format's override block and own script block (quick: full slot set; thorough: every subset x 2 classes); " +
 			"company: with contents, conffiles, changelog, triggers and extra fields in the control data; umask settings; script paths relative to the working directory; thorough: script lengths 1..1 MiB around block and buffer sizes for each slot alone, each pair and all slots; " +
@@ -171,7 +174,7 @@ func init() {
 		Setup:       setupScripts,
 		Decode:      decodeInto[C09Case],
 		Bounds: func(env *engine.Env) map[string]any {
-			b := map[string]any{"classes_quick": scriptClasses[:5], "classes_thorough": scriptClasses, "placements": []string{"base", "override", "both", "other"},
+			b := map[string]any{"classes_quick": scriptClasses[:7], "classes_thorough": scriptClasses, "placements": []string{"base", "override", "both", "other"},
 				"script_sizes_thorough": scriptSizes, "history_classes_thorough": 6, "umasks": []string{"002", "022", "027", "077", "777"}}
 			for f, s := range scriptSlots {
 				b["slots_"+f] = len(s)
@@ -179,7 +182,7 @@ func init() {
 			return b
 		},
 		Enumerate: func(env *engine.Env, yield func(any) bool) {
-			classes := scriptClasses[:5]
+			classes := scriptClasses[:7]
 			if env.Thorough() {
 				classes = scriptClasses
 			}
